@@ -14,6 +14,19 @@ type G struct {
 	// knobs
 	allowKnown bool // also generate the input classes of the open known findings
 	plain      bool // only defaults and unique indexes whose effect on rows the engine model evaluates (populated model cases)
+	odd        bool // every constraint / index name gets a character outside \w (else one name in five)
+}
+
+// oddName: constraint names outside \w+ -- dash, space, dot, non-ASCII letter, the two quote characters.  SQLite's
+// inspection recovers CHECK / FOREIGN KEY names from the stored CREATE text with \w+, so such a constraint is
+// inspected as anonymous (a foreign key keeps its numeric id); the loop still has to converge.
+var oddSuffixes = []string{"-x", " not neg", ".v2", "é", "`q", "\"q", "-ü.x y"}
+
+func (g *G) oddName(n string) string {
+	if g.odd || g.r.Chance(1, 5) {
+		return n + oddSuffixes[g.r.Intn(len(oddSuffixes))]
+	}
+	return n
 }
 
 var (
@@ -188,6 +201,9 @@ func (g *G) idxName(s *Schema, t *Table) string {
 		if g.r.Chance(1, 8) {
 			n = fmt.Sprintf("%s_%s", t.Name, g.pick(storedCols(t))) // the name normalizeIdxName would make up
 		}
+		if g.odd || g.r.Chance(1, 8) {
+			n += oddSuffixes[g.r.Intn(len(oddSuffixes))]
+		}
 		if !nameUsed(s, n) {
 			return n
 		}
@@ -244,7 +260,7 @@ func (g *G) check(t *Table, k int) (Check, bool) {
 	}
 	ck := Check{Expr: fmt.Sprintf(e, c.Name)}
 	if g.r.Bool() {
-		ck.Name = fmt.Sprintf("ck_%s_%d", strings.ToLower(t.Name), k)
+		ck.Name = g.oddName(fmt.Sprintf("ck_%s_%d", strings.ToLower(t.Name), k))
 	}
 	return ck, true
 }
@@ -284,12 +300,12 @@ func (g *G) fk(s *Schema, t *Table, k int) (FK, bool) {
 	}
 	f := FK{Cols: cs, RefTable: rt.Name, RefCols: refc, OnUpdate: g.pick(actions), OnDelete: g.pick(actions)}
 	if g.r.Chance(3, 5) {
-		f.Symbol = fmt.Sprintf("fk_%s_%d", strings.ToLower(t.Name), k)
+		f.Symbol = g.oddName(fmt.Sprintf("fk_%s_%d", strings.ToLower(t.Name), k))
 	}
 	if f.Symbol == "" && !g.allowKnown { // two unnamed foreign keys in one desired table: known finding
 		for _, o := range t.FKs {
 			if o.Symbol == "" {
-				f.Symbol = fmt.Sprintf("fk_%s_%d", strings.ToLower(t.Name), k)
+				f.Symbol = g.oddName(fmt.Sprintf("fk_%s_%d", strings.ToLower(t.Name), k))
 			}
 		}
 	}
